@@ -634,10 +634,56 @@ package argmapper
 
 // ---------------------------------------------------------------- call.go: callGraph (first: frame level), Call
 //@ func (*Func).callGraph
-//@   requires args != nil
-//@   ensures  planning == old(planning) && failed == old(failed) && nexec == old(nexec)
-//@   assigns  graph.Graph, Outer, Inner, HashM, VisitM, []graph.Vertex, [][]graph.Vertex, valueVertex, typedArgVertex, typedOutputVertex, funcVertex, rootVertex, Value, valueInternal, []*Value, ErrArgumentUnsatisfied, []*Func, []interface{}, reported, dvisited, kpos, spos, fin, frozen, cnt
+//@   requires args != nil && bOK(args) && funcOK(f)
+//@   ensures  [no-user-code-but-generators] planning == old(planning) && failed == old(failed) && nexec == old(nexec)
+//@   ensures  [graph-well-formed] wf0(g) && gOK(g)
+//@   ensures  [rule-instances-only] ruleInv(g)
+//@   ensures  [root-kept] imp(err == nil, typeis(vertexRoot, *rootVertex) && has(g.hash, hc(vertexRoot)) && hkind(hc(vertexRoot)) == 5)
+//@   assigns  graph.Graph, Outer, Inner, HashM, VisitM, []graph.Vertex, [][]graph.Vertex, valueVertex, typedArgVertex, typedOutputVertex, funcVertex, rootVertex, Value, valueInternal, []*Value, ErrArgumentUnsatisfied, []*Func, []interface{}, reported, dvisited, kpos, spos, fin, frozen, cnt, reqs, ins
 //@   modifies nothing
+//@   tail-split
+//@   hint frame-call using maps-fresh, Add.foot, AddEdge.foot, AddEdgeWeighted.foot, Add.1, AddEdgeWeighted.1, AddEdge.1, graph.foot, graph.graph-kept-well-formed
+//@   hint call-requires/.*endpoints-present using reps, root, Add.verts, Add.2, AddEdgeWeighted.1, AddEdge.1
+//@   hint panic/nil using reps
+//@   loop * invariant [maps-fresh using maps-fresh, Add, AddEdgeWeighted, AddEdge, graph.foot, graph.graph-kept-well-formed, footGrows, alloc] fresh(g.hash) && fresh(g.adjacencyOut) && fresh(g.adjacencyIn) && forall(m, Inner, imp(infoot(g, m), fresh(m)))
+//@   loop * invariant [wf] wf(g) && sameRefs(g)
+//@   loop * invariant [gOK using gOK, step-gOK, reps, graph.graph-kept-well-formed, Add!, AddEdgeWeighted!, AddEdge!] gOK(g)
+//@   loop * invariant [rules using rules, AddEdgeWeighted, AddEdge, Add.edges, Add.verts] ruleInv(g)
+//@   loop * invariant [root] typeis(vertexRoot, *rootVertex) && as(vertexRoot, *rootVertex) != nil && has(g.hash, hc(vertexRoot)) && hkind(hc(vertexRoot)) == 5 && args != nil && bVals(args) && funcOK(f)
+//@   loop * invariant [ghost-state] planning == old(planning) && failed == old(failed) && nexec == old(nexec) && sliceskept([]graph.Vertex) && sliceskept([]*Func)
+//@   loop 1 invariant [reps using reps, step-reps, Vertices.reps, gOK, graph.graph-kept-well-formed, Add!, AddEdgeWeighted!, AddEdge!] forall(i, int, imp(0 <= i && i < len(rslice1), has(g.hash, hc(rslice1[i])) && g.hash[hc(rslice1[i])] == rslice1[i] && repOK(rslice1[i])))
+//@   loop 2 invariant [reps using reps, step-reps, Vertices.reps, gOK, graph.graph-kept-well-formed, Add!, AddEdgeWeighted!, AddEdge!] forall(i, int, imp(0 <= i && i < len(rslice2), has(g.hash, hc(rslice2[i])) && g.hash[hc(rslice2[i])] == rslice2[i] && repOK(rslice2[i])))
+//@   loop 3 invariant [reps using reps, step-reps, Vertices.reps, gOK, graph.graph-kept-well-formed, Add!, AddEdgeWeighted!, AddEdge!] forall(i, int, imp(0 <= i && i < len(rslice3), has(g.hash, hc(rslice3[i])) && g.hash[hc(rslice3[i])] == rslice3[i] && repOK(rslice3[i])))
+//@   loop 4 invariant [reps using reps, step-reps, Vertices.reps, gOK, graph.graph-kept-well-formed, Add!, AddEdgeWeighted!, AddEdge!] forall(i, int, imp(0 <= i && i < len(rslice4), has(g.hash, hc(rslice4[i])) && g.hash[hc(rslice4[i])] == rslice4[i] && repOK(rslice4[i])))
+//@   loop 5 invariant [reps using reps, step-reps, Vertices.reps, gOK, graph.graph-kept-well-formed, Add!, AddEdgeWeighted!, AddEdge!] forall(i, int, imp(0 <= i && i < len(rslice5), has(g.hash, hc(rslice5[i])) && g.hash[hc(rslice5[i])] == rslice5[i] && repOK(rslice5[i])))
+//@   loop 6 invariant [reps using reps, step-reps, Vertices.reps, gOK, graph.graph-kept-well-formed, Add!, AddEdgeWeighted!, AddEdge!] forall(i, int, imp(0 <= i && i < len(rslice6), has(g.hash, hc(rslice6[i])) && g.hash[hc(rslice6[i])] == rslice6[i] && repOK(rslice6[i])))
+//@   loop 7 invariant [reps using reps, step-reps, Vertices.reps, gOK, graph.graph-kept-well-formed, Add!, AddEdgeWeighted!, AddEdge!] forall(i, int, imp(0 <= i && i < len(rslice7), has(g.hash, hc(rslice7[i])) && g.hash[hc(rslice7[i])] == rslice7[i] && repOK(rslice7[i])))
+//@   loop 8 invariant [reps using reps, step-reps, Vertices.reps, gOK, graph.graph-kept-well-formed, Add!, AddEdgeWeighted!, AddEdge!] forall(i, int, imp(0 <= i && i < len(rslice8), has(g.hash, hc(rslice8[i])) && g.hash[hc(rslice8[i])] == rslice8[i] && repOK(rslice8[i])))
+//@   loop 9 invariant [reps using reps, step-reps, Vertices.reps, gOK, graph.graph-kept-well-formed, Add!, AddEdgeWeighted!, AddEdge!] forall(i, int, imp(0 <= i && i < len(rslice9), has(g.hash, hc(rslice9[i])) && g.hash[hc(rslice9[i])] == rslice9[i] && repOK(rslice9[i])))
+//@   loop 10 invariant [reps using reps, step-reps, Vertices.reps, gOK, graph.graph-kept-well-formed, Add!, AddEdgeWeighted!, AddEdge!] forall(i, int, imp(0 <= i && i < len(rslice10), has(g.hash, hc(rslice10[i])) && g.hash[hc(rslice10[i])] == rslice10[i] && repOK(rslice10[i])))
+//@   loop 11 invariant [reps using reps, step-reps, Vertices.reps, gOK, graph.graph-kept-well-formed, Add!, AddEdgeWeighted!, AddEdge!] forall(i, int, imp(0 <= i && i < len(rslice11), has(g.hash, hc(rslice11[i])) && g.hash[hc(rslice11[i])] == rslice11[i] && repOK(rslice11[i])))
+//@   loop 12 invariant [reps using reps, step-reps, Vertices.reps, gOK, graph.graph-kept-well-formed, Add!, AddEdgeWeighted!, AddEdge!] forall(i, int, imp(0 <= i && i < len(rslice12), has(g.hash, hc(rslice12[i])) && g.hash[hc(rslice12[i])] == rslice12[i] && repOK(rslice12[i])))
+//@   after "g.AddEdgeWeighted(v, g.Add(&typedOutputVertex{" assert [step-gOK-1 using step-gOK, gOK, reps, step-reps, Add!, AddEdgeWeighted!] gOK(g)
+//@   after "g.AddEdgeWeighted(v, g.Add(&typedOutputVertex{" assert [step-reps-1 using step-reps, reps, Add!, AddEdgeWeighted!] forall(i, int, imp(0 <= i && i < len(rslice1), has(g.hash, hc(rslice1[i])) && g.hash[hc(rslice1[i])] == rslice1[i] && repOK(rslice1[i])))
+//@   after "g.AddEdgeWeighted(g.Add(&typedArgVertex{" assert [step-gOK-2 using step-gOK, gOK, reps, step-reps, Add!, AddEdgeWeighted!] gOK(g)
+//@   after "g.AddEdgeWeighted(g.Add(&typedArgVertex{" assert [step-reps-2 using step-reps, reps, Add!, AddEdgeWeighted!] forall(i, int, imp(0 <= i && i < len(rslice1), has(g.hash, hc(rslice1[i])) && g.hash[hc(rslice1[i])] == rslice1[i] && repOK(rslice1[i])))
+//@   after "g.AddEdgeWeighted(g.Add(&typedArgVertex{" assert [step-gOK-3 using step-gOK, gOK, reps, step-reps, Add!, AddEdgeWeighted!] gOK(g)
+//@   after "g.AddEdgeWeighted(g.Add(&typedArgVertex{" assert [step-reps-3 using step-reps, reps, Add!, AddEdgeWeighted!] forall(i, int, imp(0 <= i && i < len(rslice1), has(g.hash, hc(rslice1[i])) && g.hash[hc(rslice1[i])] == rslice1[i] && repOK(rslice1[i])))
+//@   after "g.AddEdgeWeighted(v, g.Add(&typedOutputVertex{" assert [step-gOK-4 using step-gOK, gOK, reps, step-reps, Add!, AddEdgeWeighted!] gOK(g)
+//@   after "g.AddEdgeWeighted(v, g.Add(&typedOutputVertex{" assert [step-reps-4 using step-reps, reps, Add!, AddEdgeWeighted!] forall(i, int, imp(0 <= i && i < len(rslice2), has(g.hash, hc(rslice2[i])) && g.hash[hc(rslice2[i])] == rslice2[i] && repOK(rslice2[i])))
+//@   after "g.AddEdgeWeighted(v, g.Add(&typedOutputVertex{" assert [new-out-ok-1 using Add!, AddEdgeWeighted!] imp(!typeis(raw, *funcVertex), repOK(g.hash[hashO(v.Type, "")])) && has(g.hash, hashO(v.Type, ""))
+//@   before "v, ok := raw.(*valueVertex)" assert [raw-ok-1 using reps] repOK(raw)
+//@   before "v, ok := raw.(*valueVertex)" assert [raw-ok-2 using reps] repOK(raw)
+//@   before "v, ok := raw.(*valueVertex)" assert [raw-ok-3 using reps] repOK(raw)
+//@   before "v, ok := raw.(*typedArgVertex)" assert [raw-ok-4 using reps] repOK(raw)
+//@   before "v, ok := raw.(*typedArgVertex)" assert [raw-ok-5 using reps] repOK(raw)
+//@   before "v, ok := raw.(*typedArgVertex)" assert [raw-ok-6 using reps] repOK(raw)
+//@   before "v, ok := raw.(*typedArgVertex)" assert [raw-ok-7 using reps] repOK(raw)
+//@   before "v, ok := raw.(*typedOutputVertex)" assert [raw-ok-8 using reps] repOK(raw)
+//@   before "v2, ok := raw2.(*typedOutputVertex)" assert [raw-ok-9 using reps] repOK(raw2)
+//@   before "v2, ok := raw.(*valueVertex)" assert [raw-ok-10 using reps] repOK(raw)
+//@   before "v2, ok := raw.(*typedOutputVertex)" assert [raw-ok-11 using reps] repOK(raw)
+//@   before "v2, ok := raw.(*typedOutputVertex)" assert [raw-ok-12 using reps] repOK(raw)
 
 // Call: ghost history starts afresh (failed = nil); the three early exits and the final execution
 //@ ghostvar finalStep bool
